@@ -18,6 +18,7 @@ Part 2: the functional layer (Model/C04Key, C04Classify, C04Sort).
                                   `clz(a ^ b)/8` and `8 - ctz(a)/8` are the LCP contributions the sorter adds
   * `subjobs_write_disjoint`, `subjobs_order_irrelevant`   bucket ranges are disjoint; the arrays do
                                   not depend on the order in which the sub-jobs run
+  * `distribution_is_partition`, `bucket_bounds_cover`, `equal_bucket_is_splitter`   classification / distribution
   * `sample_sort_step_lemma`      buckets sorted with exact inner LCPs ⇒ after `ps5_sample_sort_lcp` the whole
                                   range is sorted with exact LCPs
   * OPEN: the end-to-end theorem about `sortM` (statement below)
@@ -26,6 +27,7 @@ import TlxVerif.Proofs.C04ProtoInv
 import TlxVerif.Proofs.C04Str
 import TlxVerif.Proofs.C04Assemble
 import TlxVerif.Proofs.C04Step
+import TlxVerif.Proofs.C04Classify
 import TlxVerif.Model.C04Sort
 namespace TlxVerif.C04
 
@@ -453,6 +455,21 @@ theorem subjobs_order_irrelevant {α} [Inhabited α] (results : List (List α)) 
 
 example : applyWrites [(2, [7, 8]), (0, [5, 6])] [0, 0, 0, 0] = [5, 6, 7, 8] := by decide
 
+/-- **Distribution**: with bucket ids below `2s+1` every string of the range lands in exactly one
+bucket (the buckets together are a permutation of the range) … -/
+theorem distribution_is_partition (strs : List Str) (ids : List Nat) (bktnum : Nat)
+    (hlen : ids.length = strs.length) (hid : ∀ id ∈ ids, id < bktnum) :
+    (bucketsOf strs ids bktnum).flatten.Perm strs := bucketsOf_perm strs ids bktnum hlen hid
+
+/-- … the bucket borders `bkt[]` (exclusive prefix sums) end at the size of the range … -/
+theorem bucket_bounds_cover (sizes : List Nat) : (boundsOf sizes).getLast? = some sizes.sum := by
+  rw [boundsOf_eq, boundsFrom_last]; simp
+
+/-- … and an odd (`=`) bucket is answered by `find_bkt` only for a key equal to that bucket's splitter. -/
+theorem equal_bucket_is_splitter {c : Classifier} {useCalc : Bool} {k : Key} {b : Nat}
+    (h : c.findBkt useCalc k = some b) (hb : b % 2 = 1) : splOf c useCalc (b / 2) = some k :=
+  findBkt_odd h hb
+
 /-- **The base sorter specification is satisfiable**: `baseSort` (the model's stand-in for
 `insertion_sort`, property C03) returns a sorted permutation with exact LCPs. -/
 theorem base_sorter_good (strs : List Str) : SortedLcp strs (baseSort strs) := baseSort_good strs
@@ -477,7 +494,7 @@ def sortAll_correct_statement : Prop :=
     (sortAll env fuel strs = .ok r → SortedLcp strs r) ∧ sortAll env fuel strs ≠ .error .oob
 -- OPEN: sortAll_correct_statement — proved so far: the key/LCP arithmetic every step relies on (`key_*`),
 --   disjointness and order independence of the sub-job ranges; missing: `build`/`findBkt` = lower-bound
---   classification (to discharge `BucketsOk` of the step lemma), the MKQS / insertion_sort_cache lemmas and the
+--   classification (monotone in the key; to discharge the key order hypothesis in `BucketsOk` of the step lemma), the MKQS / insertion_sort_cache lemmas and the
 --   induction over the recursion that combines them.
 --   The model is tied to the implementation by the correspondence on order, LCPs and classifier internals.
 
